@@ -56,7 +56,7 @@ def stepOp (server : Bool) (l : List Strm) (op : String) : List Strm :=
     | none => l
   | 'f' :: rest =>
     match (String.ofList rest).toNat? with
-    | some sid => if sid % 4 != 0 then l else updS l sid (fun s => { s with fin := true, fault := if s.rx.isEmpty && server then .finFirst else s.fault })
+    | some sid => if sid % 4 != 0 then l else updS l sid (fun s => { s with fin := true, fault := if s.rx.isEmpty then .finFirst else s.fault })
     | none => l
   | 'r' :: rest =>
     match numPrefix (String.ofList rest) with
@@ -123,7 +123,10 @@ def renderFaultSpec (server : Bool) (f : Fault) : String :=
   | .stop c => s!"[rterm:{c}]"
   | .malformed => "[stream:H3_MESSAGE_ERROR]"
   | .oversized => "[toobig]"
-  | .finFirst => if server then "[stream:H3_REQUEST_INCOMPLETE]" else "*"
+  -- a stream abandoned before its headers: the server aborts the request with H3_REQUEST_INCOMPLETE (RFC 9114 §4.1);
+  -- a response stream that ends without a response is "an invalid sequence of HTTP messages" (§4.1.2): H3_MESSAGE_ERROR
+  -- (reading R-07; H3_REQUEST_INCOMPLETE is by its definition, §8.1, the code for the CLIENT's stream)
+  | .finFirst => if server then "[stream:H3_REQUEST_INCOMPLETE]" else "[stream:H3_MESSAGE_ERROR]"
   | .none => "[]"
 
 /-- the specification's answer, computed from the line alone -/
